@@ -254,6 +254,8 @@ impl State for Scripted {
 pub fn family_of(group: &str) -> &'static str {
     match group {
         "p1" | "p2" => "Monoclinic",
+        "hex1" => "Hexagonal",
+        "tet1" => "Tetragonal",
         _ => "Orthorhombic",
     }
 }
